@@ -401,7 +401,25 @@ def r10_transfer_wiring(ctx):
         ctx.vanished(f"transfer wiring obligations: only {n}")
 
 
+def r11_weight_validator(ctx):
+    """The transfer functions compute exact Fraction weights and hand them to Ballot(...); they stay exact only if the
+    weight validator of Ballot leaves a Fraction as it is (limit_denominator is for floats: applied to a Fraction it
+    moves any weight whose denominator exceeds 10**6).  Decided by the weight clauses of C11.R2."""
+    from rules import c11
+    sub = type(ctx)(ctx.prog, ctx.prop, ctx.tier)
+    c11.r2_validators(sub)
+    n = 0
+    for o in sub.obs:
+        if "weight" in (o.construct or "").lower():
+            o.rule = "C03.R11"
+            ctx.obs.append(o)
+            n += 1
+    if n < 1:
+        ctx.vanished(f"Ballot weight validator obligations: only {n}")
+
+
 RULES = [
+    ("C03.R11", r11_weight_validator, 3, "prerequisite: Ballot's weight validator keeps an exact Fraction weight as it is (C11.R2)"),
     ("C03.R1", r1_winner_filtered, 5, "the winner is filtered out of every position; emptied positions dropped; siblings agree"),
     ("C03.R2", r2_order, 3, "the rebuilt ranking keeps the source order (order-preserving pipeline)"),
     ("C03.R3", r3_exact, 2, "no library-created float reaches a weight in the transfer functions"),
